@@ -438,7 +438,27 @@ func (ex *extractor) writeWriteOrder(path string) {
 		}
 		fmt.Fprintf(&b, "  (%q, %d, %d, %v, %v, %v)%s\n", q, nPub, nWr, after, guarded, noRollback, sep)
 	}
-	b.WriteString("]\n\nend Gkv.Gen.WriteOrder\n")
+	b.WriteString("]\n\n/-- in `itemLoc.Copy`: the first read of `src.item` lies before the first read of `src.loc` (defect F16) -/\n")
+	itemFirst := false
+	if fd := ex.funcs["itemLoc.Copy"]; fd != nil && fd.Body != nil {
+		var pItem, pLoc token.Pos
+		ast.Inspect(fd.Body, func(n ast.Node) bool {
+			if sel, ok := n.(*ast.SelectorExpr); ok {
+				if id, ok := sel.X.(*ast.Ident); ok && id.Name == "src" {
+					if sel.Sel.Name == "item" && pItem == 0 {
+						pItem = sel.Pos()
+					}
+					if sel.Sel.Name == "loc" && pLoc == 0 {
+						pLoc = sel.Pos()
+					}
+				}
+			}
+			return true
+		})
+		itemFirst = pItem != 0 && pLoc != 0 && pItem < pLoc
+	}
+	fmt.Fprintf(&b, "def copyReadsItemFirst : Bool := %v\n", itemFirst)
+	b.WriteString("\nend Gkv.Gen.WriteOrder\n")
 	if err := os.WriteFile(path, []byte(b.String()), 0644); err != nil {
 		fail("%v", err)
 	}
